@@ -82,15 +82,11 @@ let exact what (model : anum) (ctok : string) =
 let within (x : rnum) (q : rat) (eps : rat) : bool =
   sgi (rn_cmp_q x (q_sub q eps)) >= 0 && sgi (rn_cmp_q x (q_add q eps)) <= 0
 
-(* the error bound the approximations are held to: (b - a) / 2^(100 - n) where b - a = k / 2^n (normalised) *)
-let approx_bound (a : anum) : rat =
-  match a.an_f with
-  | None -> zero_q
-  | Some _ ->
-    let w = q_sub (q_from_dyadic a.an_b) (q_from_dyadic a.an_a) in
-    let sz = dy_sub NoAlias { da = Z0; dn = N0 } a.an_b a.an_a in
-    let n = int_of_n sz.dn in
-    if n < 100 then q_div_2exp w (n_of_int (100 - n)) else w
+(* SEMANTIC accuracy of the approximations, independent of the model of the algorithm (decided exactly with the
+   reference: the number is compared with the two rationals answer -/+ bound):
+     |to_rational(x) - v| <= 2^-100        |to_double(x) - v| <= 2^-99 + 2^-51 * |to_double(x)|     *)
+let two_m k : rat = q_div_2exp (z_of_int 1, z_of_int 1) (n_of_int k)
+let q_abs (q : rat) : rat = q_max q (q_neg q)
 
 (* mpq_get_d of the dyadic a/2^n: truncation toward zero to a 53-bit mantissa (GMP documentation), as an exact rational *)
 let double_of_dyadic_trunc (d : dyadic) : ZA.t * int =
@@ -305,7 +301,7 @@ let run_case (toks : string list) (cout : string list) : string =
         if cf.(1) <> string_of_q q then fail "to_rational result %s is not canonical" cf.(1);
         if an_is_rational a then begin
           if sgi (rn_cmp_q (get i) q) <> 0 then fail "to_rational of a number the library knows to be rational gives %s" cf.(1)
-        end else if not (within (get i) q (approx_bound a)) then fail "to_rational %s is further than (b-a)/2^(100-n) from the number" cf.(1);
+        end else if not (within (get i) q (two_m 100)) then fail "to_rational %s is further than 2^-100 from the number" cf.(1);
         if an_to_rational a <> q then fail "to_rational: model of the algorithm gives %s" (string_of_q (an_to_rational a))
       | "todbl" ->
         let i = ai 1 in
@@ -314,10 +310,8 @@ let run_case (toks : string list) (cout : string list) : string =
         (match split_on cf.(1) ':' with
          | [m; e] ->
            let q = q_of_mant_exp (ZA.of_string m) (int_of_string e) in
-           (* a few ulps: 2^-50 relative to the larger end of the enclosure, plus the refinement bound *)
-           let big = q_max (q_max (q_from_dyadic a.an_a) (q_neg (q_from_dyadic a.an_a))) (q_max (q_from_dyadic a.an_b) (q_neg (q_from_dyadic a.an_b))) in
-           let eps = q_add (approx_bound a) (q_div_2exp big (n_of_int 50)) in
-           if not (within (get i) q eps) then fail "to_double %s*2^%s is not within a few ulps of the number" m e;
+           let eps = q_add (two_m 99) (q_div_2exp (q_abs q) (n_of_int 51)) in
+           if not (within (get i) q eps) then fail "to_double %s*2^%s is further than 2^-99 + 2^-51 |d| from the number" m e;
            let (mm, me) = double_of_dyadic_trunc (an_to_double_dyadic a) in
            if q_of_mant_exp mm me <> q then fail "to_double: model of the algorithm gives %s*2^%d" (ZA.to_string mm) me
          | _ -> fail "to_double returned %s" cf.(1))
